@@ -83,6 +83,7 @@ parseattr(struct attr *a, enum attrkind allowed, enum attrprefix prefix)
 			switch (tok.kind) {
 			case TLPAREN: ++paren; break;
 			case TRPAREN: --paren; break;
+			case TEOF: error(&tok.loc, "unterminated attribute arguments");
 			}
 		}
 	}
@@ -116,8 +117,6 @@ gnuattrspec(struct attr *a, enum attrkind allowed)
 {
 	if (!consume(T__ATTRIBUTE__))
 		return false;
-	while (parseattr(a, allowed, PREFIXGNU) || consume(TCOMMA))
-		;
 	expect(TLPAREN, "after '__attribute__' to begin attribute specifier");
 	expect(TLPAREN, "after '__attribute__' to begin attribute specifier");
 	while (parseattr(a, allowed, PREFIXGNU) || consume(TCOMMA))
